@@ -24,9 +24,10 @@ PatT(k, i) == QI((i + k) % 2)                                                   
 PatU(k, i) == QN(((i + k) % 4) + 1, 6)                                              \* probabilities in (0, 1): 1/6 .. 4/6
 PatZ(k, i) == QI(((2 * i + k) % 5) - 2)                                             \* small integers around 0 (kinks of relu)
 PatD(k, i) == LET m == IF (i + k) % 3 = 0 THEN 1 ELSE IF (i + k) % 3 = 1 THEN 2 ELSE 4 IN QI(IF i % 2 = 0 THEN 0 - m ELSE m)   \* divisors: few distinct denominators
+PatW(k, i) == QI(((3 * i + k) % 5) - 2 + 130 * ((i + (i \div 3)) % 3))                 \* widely separated magnitudes (levels 0, 130, 260)
 PatVal(pat, k, i) ==
   CASE pat = "A" -> PatA(k, i) [] pat = "B" -> PatB(k, i) [] pat = "S" -> PatS(k, i)
-    [] pat = "P" -> PatP(k, i) [] pat = "T" -> PatT(k, i) [] pat = "U" -> PatU(k, i) [] pat = "Z" -> PatZ(k, i) [] pat = "D" -> PatD(k, i)
+    [] pat = "P" -> PatP(k, i) [] pat = "T" -> PatT(k, i) [] pat = "U" -> PatU(k, i) [] pat = "Z" -> PatZ(k, i) [] pat = "D" -> PatD(k, i) [] pat = "W" -> PatW(k, i)
 Fill(pat, shapes) == [k \in 1..Len(shapes) |-> [i \in 1..Prod(shapes[k]) |-> PatVal(pat, k, i)]]
 
 
